@@ -707,7 +707,7 @@ Check C19_doc_log_sessions : forall (u : uni) (print_f64 : lexval -> bytes) (par
   read (record lexval) (de_record lexval lexval_finite print_f64 parse_f64) (sessions (record lexval) (ser_record lexval lexval_finite print_f64 parse_f64) file ss) = Some (old ++ concat ss).
 Print Assumptions C19_doc_log_sessions.
 
-(* THE APPEND CLAUSE ACROSS PROCESSES (Model/C19Concurrent.v: std's BufWriter::write_all / flush_buf / flush, fragments in, one
+(* CONCURRENT WRITERS — beyond the property (Model/C19Concurrent.v: std's BufWriter::write_all / flush_buf / flush, fragments in, one
    write(2) per chunk out).  BufWriter + flush is the identity on the byte stream, whatever the fragments and the capacity
    (was a trusted-base item) *)
 Theorem C19_bufwriter_is_identity : forall cap frags, concat (bufwriter cap frags) = concat frags.
@@ -723,7 +723,7 @@ Check C19_bufwriter_single_write : forall cap frags, (0 < cap)%nat -> (length (c
   bufwriter cap frags = chunk_of (concat frags).
 Print Assumptions C19_bufwriter_single_write.
 
-(* GUARANTEED: two processes append the batches a and b at the same time (any fragmentation fa / fb of their bytes, any
+(* BEYOND THE PROPERTY (concurrent writers).  GUARANTEED: two processes append the batches a and b at the same time (any fragmentation fa / fb of their bytes, any
    interleaving m of their write(2) calls): if each batch is at most `cap` (= 8192) bytes the log reads back as the old records,
    then one batch, then the other *)
 Theorem C19_concurrent_small_batches : forall (F : Type) (finite : F -> Prop) (print_f64 : F -> bytes) (parse_f64 : bytes -> option F),
@@ -753,7 +753,7 @@ Check C19_concurrent_small_batches : forall (F : Type) (finite : F -> Prop) (pri
   read (record F) (de_record F finite print_f64 parse_f64) (concurrent_file file m) = Some (old ++ b ++ a).
 Print Assumptions C19_concurrent_small_batches.
 
-(* REFUTED above the capacity (finding FC19-torn): nine valid lint records (9 018 bytes) against one configuration update: A's
+(* BEYOND THE PROPERTY (concurrent writers; C19 itself speaks of a second batch AFTER a first).  Refuted above the capacity: nine valid lint records (9 018 bytes) against one configuration update: A's
    BufWriter hands the batch over in two write(2) calls, the first ending 100 bytes into the ninth line; when B's only write(2)
    falls between them Stats::read rejects the WHOLE log — the record that was there before included — although either order of the
    two sessions one after the other reads back.  Line atomicity is not given by BufWriter flush boundaries *)
